@@ -16,6 +16,7 @@ FLOORS = {"C11/D1": 16, "C11/D2": 4, "C11/D3": 8}
 
 
 def run(ctx):
+    canon.resolve_names(ctx)
     canon.to_bytes_is_canonical(ctx, "C11/D3")
     chains = canon.check_derivations(ctx, "C11/D3")
     # premise of D1: the writer's only string encoder is serde_json::to_string
